@@ -17,7 +17,8 @@ RULE_TEXT = ("The implementation is matched clause by clause against the abstrac
              " C09-D: on every witness interface with ErrorCommands each spelling of SYSTem:ERRor[:NEXT]? / :COUNt? reaches exactly system_error_next / system_error_count through the emitted trie and the generated dispatcher."
              " C09-K: the buffer discipline of process (rules K1-K7 of C07) - one response buffer per message, nothing left over at a back-edge."
              " C09-C01M: Node::child returns the child whose key equals the mnemonic, independent of the order of the keys (rule C01-M)."
-             " C09-C04X: execute only appends to the response (terminator after a successful query) and touches the writer in no other way (rule C04-X) - a written reply to an error query is never taken back.")
+             " C09-C04X: execute only appends to the response (terminator after a successful query) and touches the writer in no other way (rule C04-X) - a written reply to an error query is never taken back."
+             " C09-C04Q: the description is written by the string quoting rule (C04-Q).")
 
 Q = "<microscpi::error_queue::StaticErrorQueue<N> as microscpi::error_queue::ErrorQueue>::"
 DEQ = "heapless::deque::Deque::"
